@@ -265,8 +265,8 @@ def _is_trivial_guard(F, e, p, at):
     if isinstance(e, ast.Compare) and len(e.ops) == 1 and isinstance(e.ops[0], (ast.Is, ast.IsNot)) and hr.is_none(e.comparators[0]):
         return True
     er = F.resolve(e, at, keep=("self",))
-    if isinstance(er, ast.Compare) and all(isinstance(x_, ast.Call) and au.call_tail(x_) == "len" or isinstance(x_, ast.Constant) for x_ in [er.left] + list(er.comparators)):
-        return True
+    if isinstance(er, ast.Compare) and len(er.ops) == 1 and isinstance(er.ops[0], (ast.Eq, ast.LtE, ast.GtE)) and au.src(er.left) == au.src(er.comparators[0]):
+        return True             # x == x
     return False
 
 
